@@ -6,7 +6,8 @@ CONSTANTS
   Configs = {1, 12}
   MaxList = 3
   GenMode = FALSE
-  SetAll = TRUE
+  Wide = TRUE
+  DEV_SortedIdLists = FALSE
   DEV_SpellingInEq = FALSE
 INVARIANT LawValid
 INVARIANT LawNormal
@@ -16,4 +17,5 @@ INVARIANT LawReprint
 INVARIANT LawRoundTripEqual
 INVARIANT LawSetPrint
 INVARIANT LawSolAll
+INVARIANT LawSolAligned
 PROPERTY LawSpelling
